@@ -208,6 +208,10 @@ def gen_call(lib, k, call):
         L.append("    vfret => %s(%s)" % (name, ", ".join(A)))
     else:
         L.append("    vfret = %s(%s)" % (name, ", ".join(A)))
+        if call.get("twice"):
+            # the same call twice more inside one expression: every call written in the source reaches the library
+            # (the driver is compiled with optimisation; a function wrongly declared PURE would be called once)
+            L.append("    vfret = max(%s(%s), %s(%s))" % (name, ", ".join(A), name, ", ".join(A)))
     L.append("    call vfo_begin(%d)" % k)
     if r["kind"] in ("val", "ptr_scalar"):
         L.append("    " + prn(r["T"], "ret", "vfret"))
